@@ -35,6 +35,11 @@ CHECKS["C01"] = (TV, "translation validation: symbolic execution (SSA->SMT, z3) 
     "on the same path; one SMT query per path decides that the yielded sequences and end-of-iteration agree for ALL argument values within the bounds "
     "(64-bit ints, loop bound n in [-1,3], K advances). The program dimension is sampled, not symbolic.", "§6 C01")
 
+CHECKS["C02"] = (TV, "translation validation: symbolic execution (SSA->SMT, z3) with advance markers and evaluation-point effects in the event log",
+    "Same two-world execution as C01 on an effect-instrumented corpus: the log contains a CREATED marker, ADV_BEGIN/ADV_END around every advance, "
+    "rt.Eff(id, e) around yielded expressions / conditions / initialisers and effect statements around yields; the solver decides flat log equality for all "
+    "inputs, which (deterministic engine, markers in the log) implies equality at every truncation point k <= K and for 2 advances after exhaustion. Program dimension sampled.", "§6 C02")
+
 NA = {
     "C11": "compiler acceptance/buildability is decided by the compiler pipeline itself (go/packages, go/types, reflection-based AST rewriting, printer, file system); it cannot be encoded by an SSA->SMT translator and has no symbolic dimension once a program is fixed — enumeration of concrete compiler runs would be a different technique (DESIGN §7)",
     "C15": "byte-identical output across runs/configurations is a statement about repeated process runs, map iteration in the compiler and leftovers on disk; no symbolic inputs and the code is not encodable (DESIGN §7)",
